@@ -357,13 +357,15 @@ pub fn check_released(uid: Uid) {
         match r {
             Ok(inner) => {
                 if let Inner::Gen(g) = inner {
-                    let fdx = g.unwrap();
+                    // the user keeps the Generic of the removed source; it is unwrapped when (and if) its fd is used again
                     w(|w| {
                         let s = &mut w.srcs[uid];
-                        if fdx.owned.is_some() {
+                        if g.get_ref().owned.is_some() {
                             let peer = s.fds.get_mut(0).and_then(|c| c.peer.take());
-                            s.fd_released = Some(fdx);
                             s.fd_released_peer = peer;
+                            s.kept_generic = Some(g);
+                        } else {
+                            std::mem::forget(g.unwrap());
                         }
                     });
                 } else {
@@ -762,7 +764,7 @@ fn teardown(el: EventLoop<'static, ()>, end: u8, judge: bool, dead: bool) {
         drop(disps);
     }
     drop(wakers);
-    let scheds: Vec<_> = w(|w| w.srcs.iter_mut().map(|s| (s.sched.take(), s.stream.take())).collect());
+    let scheds: Vec<_> = w(|w| w.srcs.iter_mut().map(|s| (s.sched.take(), s.stream.take(), s.kept_generic.take())).collect());
     drop(scheds);
     if !judge {
         return;
